@@ -7,6 +7,8 @@ package runkit
 import (
 	"context"
 	"fmt"
+	"io"
+	"log/slog"
 	"runtime"
 	"time"
 
@@ -40,9 +42,16 @@ type Config struct {
 	Metrics  *metrics.Metrics // nil: fresh private registry, iteration metrics on
 	Labels   map[string]string
 	Ctx      context.Context
-	Wait     time.Duration   // waitForCompletionTimeout (default 10s)
-	OnRun    func(*run.Run)  // called before Do
+	Wait     time.Duration  // waitForCompletionTimeout (default 10s)
+	OnRun    func(*run.Run) // called before Do
 	WrapRate func(api.RateFunction) api.RateFunction
+	Debug    bool // run with a logger on which debug records are enabled (they go nowhere)
+}
+
+// DebugOutput is an output whose logger has every level enabled and discards what it is given.
+func DebugOutput() *ui.Output {
+	logger := slog.New(slog.NewTextHandler(io.Discard, &slog.HandlerOptions{Level: slog.LevelDebug - 4}))
+	return ui.NewOutput(logger, ui.NewDiscardPrinter(), false, false)
 }
 
 type Outcome struct {
@@ -110,6 +119,9 @@ func Do(cfg Config) Outcome {
 
 func DoWithTrigger(cfg Config, trig *api.Trigger) Outcome {
 	out := ui.NewDiscardOutput()
+	if cfg.Debug {
+		out = DebugOutput()
+	}
 	if cfg.Name == "" {
 		cfg.Name = "verifscenario"
 	}
